@@ -2,3 +2,4 @@ import Pog.Model.Basic
 import Pog.Model.Names
 import Pog.Model.Fresh
 import Pog.Props.C20
+import Pog.Props.C01
